@@ -248,8 +248,8 @@ PROPS['C06'] = {
         ('geo', 'c06.rs', r'^c06_k_(weighted_centroid_algebra|operation_none_iff_empty|centroid_none_iff_empty)$', 'complete', 'quick'),
         ('geo', 'c06.rs', r'^c06_k_(operation_early_outs|zero_area_polygon|centroid_scales_exactly)', 'bounded', 'quick'),
     ],
-    'trusted': ['Verus unit c06_closed: Rect::center (each component = (max + min) / 2 of its axis, the quotient named not evaluated), Centroid for Rect (= that centre as a Point) and for Point (= itself); exact ring scalar; the division never panics (floats)',
-                'Verus unit c06_accum: exact ring scalar; derived Ord of Dimensions = declaration order; Line::centroid, Euclidean length and the ring formula `add_ring` are abstract (assumed to be functions of their arguments); LineString::lines() twin; the inline closure of centroid_dimensions annotated in place (X10)',
+    'trusted': ['Verus unit c06_closed: Rect::center (each component = (max + min) / 2 of its axis, the quotient named not evaluated), Centroid for Rect (= that centre as a Point), for Point (= itself) and for Line (= (start + end) / 2 axis by axis, through the real Add / Div<T> impls of Point and Coord); exact ring scalar; the division never panics (floats); twins of Line::start_point / end_point',
+                'Verus unit c06_accum: exact ring scalar; derived Ord of Dimensions = declaration order; Line::centroid (proved = the midpoint in unit c06_closed), Euclidean length and the ring formula `add_ring` are abstract (assumed to be functions of their arguments); LineString::lines() twin; the inline closure of centroid_dimensions annotated in place (X10)',
                 'f64::hypot is replaced by the model sqrt(a*a + b*b) (the libm function is a foreign call Kani cannot execute)',
                 'accumulator algebra: complete over all dimension pairs and finite f64 weights up to 1e100'],
     'undecided_clauses': [
